@@ -174,7 +174,13 @@ def Rodas(dae: nDAE,
         try:
             lu = lu_decomposition(M - dt * rparam.gamma * J)
         except RuntimeError:
-            break
+            # M - dt*gamma*J is exactly singular for this dt: a rejected step, retried with a smaller dt
+            # (for a matrix that is singular for every dt the rejection counter reports the failure)
+            reject = reject + 1
+            stats.nreject = stats.nreject + 1
+            facmax = 1
+            dt = np.min([hmax, np.max([hmin, 0.5 * dt])])
+            continue
         stats.ndecomp = stats.ndecomp + 1
         K[:, 0] = lu.solve(rhs)
 
